@@ -20,7 +20,7 @@ def t_units(tier):
     from func_adl.ast.function_simplifier import FuncADLIndexError  # noqa: F401
     N = 2 if tier == "quick" else 3
     us, n = tvbase.source_units(sources.SELECTORS, ("x", "y"), "simplify", N, "selector-family", nchunks=16, rtypes={"i_k": "i"},
-                                allowed_exc=())
+                                allowed_exc=(FuncADLIndexError,))
     for u in us:
         u["compile_check"] = True
     # C02's programs: every simplified output must also unparse and compile (totality / well-formedness)
